@@ -70,6 +70,17 @@ def fx : Fixes :=
   ⟨Gen.XTermFacts.scrollGuard, Gen.XTermFacts.eraseKeepsCount, Gen.XTermFacts.printnGuard,
    Gen.TermBuf.term_resume_resends_pen⟩
 
+/-- The drawing requests of the working tree: `XTermDrv.request`, and - when the tree contains the repair
+    `fixes/C09_scroll_one_cell.patch` (`Gen.XTermFacts.scrollCellGuard`, read from the source) - the refusal of the
+    one-line ICH/DCH path whose right margin would be column 1 (`if(right < term_cols && right < 2) return false;`). -/
+def requestT (d : Drv) (req : Request) : Bool × List UInt8 :=
+  match req with
+  | .scroll r dn rt =>
+    if Gen.XTermFacts.scrollCellGuard ∧ ¬ (dn = 0 ∧ rt = 0) ∧
+       ((d.caps.slrm ∧ r.lines = 1) ∨ r.right = d.cols) ∧ dn = 0 ∧ r.right < d.cols ∧ r.right < 2 then (false, [])
+    else request fx d req
+  | _ => request fx d req
+
 /-- Interpret the implementation's bytes on the reference terminal of this history: as `VT.run`, except that a
     terminal whose mode 69 is not recognised or permanent keeps its DECLRMM state (and, if that is "set", its
     left/right margins) whatever `CSI ? 69 h / l` asks. -/
@@ -353,7 +364,7 @@ def deferred (st : St) (vt' : VTState) (unk : Nat) (want' : VTState) (known' val
 /-- A drawing request; `viaPrintf = some s`: it is `tickit_term_printf` with formatted result `s` (the request is
     then `print s`). -/
 def doRequest (st : St) (req : Request) (viaPrintf : Option (List UInt8)) (impl : String) : St × String × String :=
-  let (ret, bytes) := request fx st.drv req
+  let (ret, bytes) := requestT st.drv req
   let (out', del) := emit st.out fun o => match viaPrintf with
     | some s => XTermOut.printf o s
     | none => XTermOut.send o bytes
